@@ -1522,6 +1522,400 @@ func TestKF_numeric_rprop_default_eta(t *testing.T) {
 	old := watchdog
 	watchdog = 5 * time.Second
 	defer func() { watchdog = old }()
-	_, to := guarded(func() { est.EstimateOnData(NewDenseFloat64Vector([]float64{1, 1.5, 3.5, 2, 0.7}), nil, threadpool.Nil()) })
+	_, to := guarded(func() {
+		est.EstimateOnData(NewDenseFloat64Vector([]float64{1, 1.5, 3.5, 2, 0.7}), nil, threadpool.Nil())
+	})
 	obs.KFStatus("C16/numeric-rprop-default-eta-reversed", to, fmt.Sprintf("returned within 5 s: %v", !to))
+}
+
+// ---------------------------------------------------------------------------------------------
+// (j) wrapped estimators: the log-transform and translation estimators estimate their inner family
+// on log(x + c) resp. x + c (the Jacobian does not depend on the parameters, so this is the maximum
+// likelihood estimate of the wrapped density), and the estimate is the wrapped distribution
+
+func TestC16_wrapped_estimators(t *testing.T) {
+	rapid.Check(t, func(t *rapid.T) {
+		wrap := rapid.SampledFrom([]string{"log", "translate"}).Draw(t, "wrapper")
+		base := rapid.SampledFrom([]string{"normal", "exponential"}).Draw(t, "inner family")
+		n := rapid.IntRange(1, 8).Draw(t, "n")
+		cst := float64(rapid.IntRange(0, 8).Draw(t, "c")) / 4
+		x := make([]float64, n)
+		y := make([]float64, n)
+		for i := range x {
+			x[i] = float64(rapid.IntRange(1, 40).Draw(t, fmt.Sprintf("x[%d]", i))) / 4
+			if wrap == "log" {
+				if base == "exponential" {
+					x[i] += 1 // log(x + c) > 0
+				}
+				y[i] = math.Log(x[i] + cst)
+			} else {
+				y[i] = x[i] + cst
+			}
+		}
+		var gamma, w []float64
+		if rapid.Bool().Draw(t, "weighted") {
+			gamma, w = make([]float64, n), make([]float64, n)
+			for i := range gamma {
+				w[i] = float64(rapid.IntRange(1, 8).Draw(t, fmt.Sprintf("w[%d]", i))) / 4
+				gamma[i] = math.Log(w[i])
+			}
+		}
+		c := obs.Begin("wrapped_estimators", "%s(%s, c=%v) x=%v gamma=%v", wrap, base, cst, x, gamma)
+		c.Classf("wrapper=%s", wrap)
+		c.Classf("family=%s", base)
+		if gamma != nil {
+			c.Class("weighted")
+		}
+		c.NT(n >= 2)
+		mk := func() statistics.ScalarBatchEstimator {
+			if base == "normal" {
+				e, err := scalarEstimator.NewNormalEstimator(0.5, 2, 1e-8)
+				if err != nil {
+					t.Fatalf("NewNormalEstimator: %v", err)
+				}
+				return e
+			}
+			e, err := scalarEstimator.NewExponentialEstimator(1.5, 1e8)
+			if err != nil {
+				t.Fatalf("NewExponentialEstimator: %v", err)
+			}
+			return e
+		}
+		inner := mk()
+		var west statistics.ScalarEstimator
+		var err error
+		if wrap == "log" {
+			west, err = scalarEstimator.NewLogTransformEstimator(mk(), cst)
+		} else {
+			west, err = scalarEstimator.NewTranslationEstimator(mk(), cst)
+		}
+		if err != nil {
+			t.Fatalf("%s: constructor error %v", c.Desc(), err)
+		}
+		var gv ConstVector
+		if gamma != nil {
+			gv = NewDenseFloat64Vector(gamma)
+		}
+		pool, stop := drawPool(t, c)
+		defer stop()
+		var e1, e2 error
+		p, to := guarded(func() {
+			e1 = west.EstimateOnData(NewDenseFloat64Vector(x), gv, pool)
+			e2 = inner.(statistics.ScalarEstimator).EstimateOnData(NewDenseFloat64Vector(y), gv, pool)
+		})
+		if to {
+			c.Class("inconclusive: watchdog")
+			c.End()
+			return
+		}
+		if p != "" {
+			t.Fatalf("%s: EstimateOnData %s", c.Desc(), p)
+		}
+		if (e1 == nil) != (e2 == nil) {
+			t.Fatalf("%s: the wrapper reports %v, the inner estimator on the transformed data %v", c.Desc(), e1, e2)
+		}
+		if e1 != nil {
+			c.Class("degenerate data: error reported")
+			c.End()
+			return
+		}
+		dw, err := west.GetEstimate()
+		if err != nil {
+			t.Fatalf("%s: GetEstimate of the wrapper: %v", c.Desc(), err)
+		}
+		di, err := inner.GetEstimate()
+		if err != nil {
+			t.Fatalf("%s: GetEstimate of the inner estimator: %v", c.Desc(), err)
+		}
+		pw, pi := params(dw), params(di)
+		if len(pw) != len(pi) {
+			t.Fatalf("%s: parameters %v of the wrapper's estimate, %v of the inner estimator on the transformed data", c.Desc(), pw, pi)
+		}
+		for k := range pw {
+			if math.Abs(pw[k]-pi[k]) > 1e-12*(1+math.Abs(pi[k])) {
+				t.Fatalf("%s: parameters %v of the wrapper's estimate, %v of the inner estimator on the transformed data", c.Desc(), pw, pi)
+			}
+		}
+		// the estimate is the wrapped density
+		for i := range x {
+			rw, ri := NewFloat64(0), NewFloat64(0)
+			if err := dw.LogPdf(rw, ConstFloat64(x[i])); err != nil {
+				t.Fatalf("%s: LogPdf of the estimate at %v: %v", c.Desc(), x[i], err)
+			}
+			di.LogPdf(ri, ConstFloat64(y[i]))
+			want := ri.GetFloat64()
+			if wrap == "log" {
+				want -= y[i]
+			}
+			if math.Abs(rw.GetFloat64()-want) > 1e-11*(1+math.Abs(want)) {
+				t.Fatalf("%s: the estimate's LogPdf(%v) = %v, the wrapped inner density gives %v", c.Desc(), x[i], rw.GetFloat64(), want)
+			}
+		}
+		c.End()
+	})
+}
+
+// ---------------------------------------------------------------------------------------------
+// (k) logistic regression (SAGA): when the estimator stops by its own rule with a tight epsilon, the
+// returned parameters are a fixed point of the proximal gradient step of
+//   (1/N) sum_i w_{c_i} loss_i(theta) + (lambda/N) R(theta_1..)     (the intercept is not regularised)
+// and the dense and sparse storage of the same data agree
+
+func TestC16_logistic_regression_stationary(t *testing.T) {
+	rapid.Check(t, func(t *rapid.T) {
+		k := rapid.IntRange(1, 3).Draw(t, "features")
+		N := rapid.IntRange(4, 10).Draw(t, "N")
+		rows := make([][]float64, N)
+		labels := make([]bool, N)
+		for i := range rows {
+			rows[i] = make([]float64, k)
+			for j := range rows[i] {
+				if rapid.IntRange(0, 3).Draw(t, fmt.Sprintf("zero[%d][%d]", i, j)) == 0 {
+					continue
+				}
+				rows[i][j] = float64(rapid.IntRange(-8, 8).Draw(t, fmt.Sprintf("x[%d][%d]", i, j))) / 4
+			}
+			labels[i] = rapid.Bool().Draw(t, fmt.Sprintf("c[%d]", i))
+		}
+		// the same point with both labels: the classes cannot be separated, the optimum is finite
+		copy(rows[1], rows[0])
+		labels[0], labels[1] = true, false
+		reg := rapid.SampledFrom([]string{"none", "l1", "l2", "ti"}).Draw(t, "regularization")
+		lambda := float64(rapid.IntRange(1, 40).Draw(t, "lambda")) / 40
+		sparse := rapid.Bool().Draw(t, "sparse")
+		balance := rapid.IntRange(0, 3).Draw(t, "balance") == 0
+		seed := int64(rapid.IntRange(0, 100).Draw(t, "seed"))
+		c := obs.Begin("logistic_regression_stationary", "logistic regression %s rows=%v labels=%v reg=%s(%v) balance=%v seed=%d", map[bool]string{true: "sparse", false: "dense"}[sparse], rows, labels, reg, lambda, balance, seed)
+		c.Classf("regularization=%s", reg)
+		c.Classf("storage=%s", map[bool]string{true: "sparse", false: "dense"}[sparse])
+		if balance {
+			c.Class("balanced class weights")
+		}
+		c.NT(true)
+		capped := false
+		run := func(sp bool) ([]float64, [2]float64, error, string, bool) {
+			est, err := vectorEstimator.NewLogisticRegression(k+1, sp)
+			if err != nil {
+				t.Fatalf("%s: constructor: %v", c.Desc(), err)
+			}
+			est.Epsilon = 1e-10
+			est.MaxIterations = 200000
+			est.Hook = func(x ConstVector, step, lambda ConstScalar, epoch int) bool {
+				if epoch >= est.MaxIterations-1 {
+					capped = true
+				}
+				return false
+			}
+			est.Seed = seed
+			est.Balance = balance
+			switch reg {
+			case "l1":
+				est.L1Reg = lambda
+			case "l2":
+				est.L2Reg = lambda
+			case "ti":
+				est.TiReg = lambda
+			}
+			data := make([]ConstVector, N)
+			for i := range rows {
+				v := append([]float64{1}, rows[i]...)
+				if labels[i] {
+					v = append(v, 1)
+				} else {
+					v = append(v, 0)
+				}
+				if sp {
+					idx := make([]int, len(v))
+					for j := range idx {
+						idx[j] = j
+					}
+					data[i] = NewSparseConstFloat64Vector(idx, v, len(v))
+				} else {
+					data[i] = NewDenseFloat64Vector(v)
+				}
+			}
+			var e error
+			p, to := guarded(func() { e = est.EstimateOnData(data, nil, threadpool.Nil()) })
+			return floats(est.GetParameters()), est.ClassWeights, e, p, to
+		}
+		theta, cw, err, p, to := run(sparse)
+		if to {
+			c.Class("inconclusive: watchdog")
+			c.End()
+			return
+		}
+		if p != "" {
+			t.Fatalf("%s: EstimateOnData %s", c.Desc(), p)
+		}
+		if err != nil {
+			t.Fatalf("%s: EstimateOnData returned %v", c.Desc(), err)
+		}
+		for _, v := range theta {
+			if math.IsNaN(v) || math.IsInf(v, 0) {
+				t.Fatalf("%s: parameters %v", c.Desc(), theta)
+			}
+		}
+		if capped {
+			c.Class("iteration cap reached (not asserted)")
+			c.End()
+			return
+		}
+		// gradient of the weighted mean loss
+		g := make([]float64, k+1)
+		for i := range rows {
+			r := theta[0]
+			for j := range rows[i] {
+				r += rows[i][j] * theta[j+1]
+			}
+			s := 1 / (1 + math.Exp(-r))
+			w := cw[0] * s
+			if labels[i] {
+				w = cw[1] * (s - 1)
+			}
+			g[0] += w / float64(N)
+			for j := range rows[i] {
+				g[j+1] += w * rows[i][j] / float64(N)
+			}
+		}
+		// proximal gradient step of size 1
+		tau := lambda / float64(N)
+		px := make([]float64, k+1)
+		wv := make([]float64, k+1)
+		for j := range wv {
+			wv[j] = theta[j] - g[j]
+			px[j] = wv[j]
+		}
+		nrm := 0.0
+		for j := 1; j <= k; j++ {
+			nrm += wv[j] * wv[j]
+		}
+		nrm = math.Sqrt(nrm)
+		switch reg {
+		case "l1":
+			for j := 1; j <= k; j++ {
+				switch {
+				case wv[j] > tau:
+					px[j] = wv[j] - tau
+				case wv[j] < -tau:
+					px[j] = wv[j] + tau
+				default:
+					px[j] = 0
+				}
+			}
+		case "l2":
+			for j := 1; j <= k; j++ {
+				if nrm > tau {
+					px[j] = wv[j] * (1 - tau/nrm)
+				} else {
+					px[j] = 0
+				}
+			}
+		case "ti":
+			for j := 1; j <= k; j++ {
+				px[j] = wv[j] / (1 + tau)
+			}
+		}
+		res, sc := 0.0, 1.0
+		allZero := true
+		for j := 1; j <= k; j++ {
+			if theta[j] != 0 {
+				allZero = false
+			}
+		}
+		for j := range px {
+			sc += math.Abs(g[j]) + math.Abs(theta[j])
+			// coordinates that a thresholding operator holds at exactly zero are not asserted (see C07)
+			if j > 0 && ((reg == "l1" && theta[j] == 0) || (reg == "l2" && allZero)) {
+				continue
+			}
+			res = math.Max(res, math.Abs(theta[j]-px[j]))
+		}
+		if res > 1e-3*sc {
+			t.Fatalf("%s: stopped at %v, which is not a fixed point of the proximal gradient step of the regularised weighted loss (class weights %v): residual %g, gradient of the loss %v", c.Desc(), theta, cw, res, g)
+		}
+		c.Class("fixed point verified")
+		// the other storage: same algorithm for l2 / tikhonov and for dense-vs-sparse without the specialised
+		// l1 implementation; the optimum is the same in every case
+		if reg == "none" {
+			// without a penalty the optimum may lie at infinity (a feature that separates part of the data)
+			c.End()
+			return
+		}
+		theta2, _, err2, p2, to2 := run(!sparse)
+		if !to2 && p2 == "" && err2 == nil && !capped {
+			for j := range theta {
+				if math.Abs(theta[j]-theta2[j]) > 2e-3*sc {
+					t.Fatalf("%s: %v with this storage, %v with the other storage of the same data", c.Desc(), theta, theta2)
+				}
+			}
+			c.Class("agrees with the other storage")
+		}
+		c.End()
+	})
+}
+
+func floats(v ConstVector) []float64 {
+	r := make([]float64, v.Dim())
+	for i := range r {
+		r[i] = v.ConstAt(i).GetFloat64()
+	}
+	return r
+}
+
+func lrFit(rows [][]float64, labels []bool, set func(*vectorEstimator.LogisticRegression)) ([]float64, int, float64) {
+	est, _ := vectorEstimator.NewLogisticRegression(len(rows[0])+1, false)
+	est.Epsilon = 1e-10
+	est.MaxIterations = 20000
+	set(est)
+	epochs, last := 0, 0.0
+	est.Hook = func(x ConstVector, step, lambda ConstScalar, i int) bool {
+		epochs, last = i, step.GetFloat64()
+		return false
+	}
+	data := make([]ConstVector, len(rows))
+	for i := range rows {
+		v := append([]float64{1}, rows[i]...)
+		if labels[i] {
+			v = append(v, 1)
+		} else {
+			v = append(v, 0)
+		}
+		data[i] = NewDenseFloat64Vector(v)
+	}
+	est.EstimateOnData(data, nil, threadpool.Nil())
+	return floats(est.GetParameters()), epochs, last
+}
+
+func TestKF_logreg_l2_norm_includes_intercept(t *testing.T) {
+	rows := [][]float64{{0, 0.75, 0}, {0, 0.75, 0}, {0, 0, 0}, {0, 0, 0}, {0, 0, 0}, {0, 0, -0.25}, {0, 0, 0.25}, {1.5, 0, 0}}
+	labels := []bool{true, false, false, false, false, false, true, false}
+	theta, _, _ := lrFit(rows, labels, func(e *vectorEstimator.LogisticRegression) { e.L2Reg = 0.875; e.Seed = 39 })
+	// stationarity of mean loss + (lambda/N) ||theta_1..||_2: grad = -tau theta/||theta_1..||
+	g := make([]float64, 4)
+	for i := range rows {
+		r := theta[0]
+		for j := range rows[i] {
+			r += rows[i][j] * theta[j+1]
+		}
+		w := 1 / (1 + math.Exp(-r))
+		if labels[i] {
+			w -= 1
+		}
+		for j := range rows[i] {
+			g[j+1] += w * rows[i][j] / 8
+		}
+	}
+	nrm := math.Sqrt(theta[1]*theta[1] + theta[2]*theta[2] + theta[3]*theta[3])
+	res := 0.0
+	for j := 1; j <= 3; j++ {
+		res = math.Max(res, math.Abs(g[j]+0.875/8*theta[j]/nrm))
+	}
+	obs.KFStatus("C16/logistic-regression-l2-shrinkage-uses-the-norm-with-intercept", nrm > 0 && res > 1e-3, fmt.Sprintf("theta %v, stationarity residual %g", theta, res))
+}
+
+func TestKF_logreg_stepsize_ignores_class_weights(t *testing.T) {
+	rows := [][]float64{{0.75, -0.75, -1.5}, {0.75, -0.75, -1.5}, {0, 1.75, 1.75}, {0, 0.25, 0}, {0.5, 0.75, 1.5}, {0, 0.5, -0.75}, {0, 0.25, 2}}
+	labels := []bool{true, false, true, true, true, true, true}
+	_, epochs, last := lrFit(rows, labels, func(e *vectorEstimator.LogisticRegression) { e.L1Reg = 0.05; e.Balance = true })
+	obs.KFStatus("C16/logistic-regression-step-size-ignores-class-weights", epochs >= 19999 && last > 1e-6, fmt.Sprintf("%d epochs, last relative change %g", epochs+1, last))
 }
